@@ -181,6 +181,21 @@ register("C05",
          "TLA+ operational-vs-declarative model checked by TLC + TLC evaluator (spec->code) compared entry by entry",
          "DESIGN.md §4 C05")
 
+register("C02",
+         "Product.tla models the block assembly of FullGrid._get_N_N operationally (truthy position entries repeated per "
+         "rotation at stride n_b, rotation block on the diagonal, sum) against the declarative Cartesian product, and TLC "
+         "checks equality, symmetry, empty diagonal and pattern = product of patterns for all pairs of weighted graphs on "
+         "nP, nB <= 3 (stride slip as negative config). On real FullGrids (all direction x rotation algorithms, n_b = 1 or "
+         ">= 4, 2-4 unequal radii, both position modes, f in {0.5,1,2,3}) the position-grid, rotation-grid and full matrices "
+         "and volumes are logged as value classes with the full matrices in stored order; TLC checks symmetry, empty "
+         "diagonal, one pattern and one stored order, positivity, adjacency = product, every border / distance entry = the "
+         "position or rotation quantity with f^2 / f on one family (the same for both matrices), and volume(n) = "
+         "posV(n div n_b) * rotV(n mod n_b) * f^3 in cell order.",
+         "Value classes at relative 1e-9; the factor products f*v, f^2*v and posV*rotV*f^3 are computed numerically by the "
+         "harness and handed to the spec as lookup tables; grids up to ~300 cells (quick) / ~1000 (thorough).",
+         "TLA+ block-assembly model checked by TLC + TLC trace validation of real matrices as value classes",
+         "DESIGN.md §4 C02")
+
 ALL = [f"C{i:02d}" for i in range(1, 21)]
 
 
